@@ -226,6 +226,9 @@ func (obj *SparseInt8Vector) Slice(i, j int) Vector {
   return obj.SLICE(i, j)
 }
 func (obj *SparseInt8Vector) Swap(i, j int) {
+  if i < 0 || j < 0 || i >= obj.n || j >= obj.n {
+    panic("index out of bounds")
+  }
   vi, ok1 := obj.values[i]
   vj, ok2 := obj.values[j]
   switch {
